@@ -106,6 +106,10 @@ structure RCfg where
   tornDataIsEOF : Bool
   /-- (repair, not in the tree) a file shorter than header+name is an empty swamp, not an error -/
   shortFileIsEmpty : Bool
+  /-- a zero size field, and a block that does not parse, runs out in zero bytes and is followed by
+      zero bytes only, are the end of the data (the zero-filled tail a power loss leaves when the
+      file size reached the disk and the data did not) -/
+  zeroTailIsEOF : Bool
   deriving DecidableEq, Repr
 
 /-- how block reading stopped -/
@@ -114,6 +118,8 @@ inductive Stop where
   | shortHdr   -- 0 < n < 16 header bytes at the end
   | torn       -- payload shorter than announced (`io.ErrUnexpectedEOF`)
   | crc        -- payload of the announced length that is not the one written for this header
+  | zero       -- the size field is 0 (a zero-filled tail)
+  | ztail      -- a block that does not parse, ends in a zero byte and has only zero bytes behind it
   | opaque     -- size field made of bytes the model does not know
   deriving DecidableEq, Repr
 
@@ -129,6 +135,10 @@ def sizeField : List Cell → Option Nat
     | _, _, _, _ => none
   | _ => none
 
+/-- how a block that does not parse stops the reader: a zero-filled tail, or damage -/
+def tailKind (cs : List Cell) (p : Nat) : Stop :=
+  if (cs.take (16 + p)).getLast? = some Cell.zero ∧ (cs.drop (16 + p)).all (· == Cell.zero) then .ztail else .crc
+
 /-- `readNextBlock` in a loop. Fuel: one unit per block (every block consumes ≥ 16 cells). -/
 def readBlocks : Nat → List Cell → List Op × Stop
   | 0, _ => ([], .eof)
@@ -139,7 +149,8 @@ def readBlocks : Nat → List Cell → List Op × Stop
       match sizeField cs with
       | none => ([], .opaque)
       | some p =>
-        if cs.length - 16 < p then ([], if cs.length = 16 then .eof else .torn)
+        if p = 0 then ([], .zero)
+        else if cs.length - 16 < p then ([], if cs.length = 16 then .eof else .torn)
         else
           match cs.head? with
           | some (.bh b _) =>
@@ -150,8 +161,8 @@ def readBlocks : Nat → List Cell → List Op × Stop
                 let r := readBlocks f (cs.drop (16 + p))
                 (b.ents ++ r.1, r.2)
               else ([], .crc)
-            else ([], .crc)
-          | _ => ([], .crc)
+            else ([], tailKind cs p)
+          | _ => ([], tailKind cs p)
 
 inductive LoadRes where
   | ok (ents : List Op)    -- entries replayed, in file order
@@ -171,6 +182,8 @@ def stopOk (c : RCfg) : Stop → Bool
   | .torn => c.tornDataIsEOF
   | .crc => false
   | .opaque => false
+  | .zero => c.zeroTailIsEOF
+  | .ztail => c.zeroTailIsEOF
 
 /-- `NewFileReader` + `LoadIndex` on the content of one file -/
 def loadFile (c : RCfg) (cs : List Cell) : LoadRes :=
